@@ -518,6 +518,18 @@ class Expr2Mixin:
             raise Unsupported(f"attribute {attr} of {type(base).__name__}")
         # group the possible classes by how the attribute resolves
         groups = {}
+        have, lack = [], []
+        for c in base.classes:
+            try:
+                self.resolve_attr(c, attr)
+                have.append(c)
+            except Unsupported:
+                lack.append(c)
+        if have and lack:
+            # AttributeError unless the object is of a class that has the attribute: a safety obligation (typically implied by an isinstance test)
+            self.check(st, z3.Or(*[cls_of(base.t) == self.cls_id(c) for c in have]),
+                       f"safety[{self.site(st, 'attr')}]::attribute_exists::{attr}", 'safety')
+            base = VObj(base.t, tuple(have))
         for c in base.classes:
             res = self.resolve_attr(c, attr)
             if res[0] == 'field':
